@@ -122,6 +122,11 @@ def fn_split(y):
     return (2 * y, -1 * y)
 
 
+def fn_cnt(x):
+    """Integer-valued helper for calls inside loop bounds."""
+    return x if isinstance(x, Fraction) else int(x)
+
+
 def make_python_functions(log=None, fault=None, sites=None):
     """function_map for the Python back ends.  log: list receiving (name, args);
     fault: callable(name) raising when a fault is due."""
@@ -140,7 +145,7 @@ def make_python_functions(log=None, fault=None, sites=None):
         return None
 
     base = {"<func>f": fn_f, "<func>g": fn_g, "<func>two": fn_two, "<func>note": note, "<func>zero": fn_zero,
-            "<func>split": fn_split}
+            "<func>split": fn_split, "<func>cnt": fn_cnt}
     out = {n: wrap(n, f) for n, f in base.items()}
     for site in sites or ():
         out[site] = wrap(site, base[base_function(site)])
@@ -195,6 +200,8 @@ def ref_call(log):
                 return fn_two(*args, **kwargs)
             if name == "<func>split":
                 return fn_split(*args, **kwargs)
+            if name == "<func>cnt":
+                return fn_cnt(*args, **kwargs)
             if name == "<func>note":
                 return None
             if name == "<func>zero":
@@ -211,6 +218,9 @@ def ref_call(log):
         if name == "<func>split":
             log.append((name, detail))
             return fn_split(*args, **kwargs)
+        if name == "<func>cnt":
+            log.append((name, detail))
+            return fn_cnt(*args, **kwargs)
         if name == "<func>note":
             log.append((name, detail))
             return None
